@@ -9,8 +9,9 @@ PROFILES = ["release"]
 SHRINK_SEP = ";"
 RULE = ("one case = one operation history `item ctor n values ; op ; op ...` run on the real Segtree, the Lean model and the "
         "plain-list spec. Items: Min/Max/Sum/MinAdd/MaxAdd/SumAdd at i64, Combinator<MinAdd,MaxAdd>, "
-        "Combinator<Combinator<SumAdd,MinAdd>,MaxAdd>, and the lawful non-commutative harness items affHash (affine modifiers, "
-        "which do not commute) and strCat. Streams: (1) every history of length <= 3 over n <= 4 (length 4 over n = 3, length 5 over "
+        "Combinator<Combinator<SumAdd,MinAdd>,MaxAdd>, the lawful non-commutative harness items affHash (affine modifiers, "
+        "which do not commute) and strCat, and Combinator<affHash,affHash>. One element in six carries a pending modifier of its own "
+        "(`v@md`, as a snapshot taken with ask(i,i) does). Streams: (1) every history of length <= 3 over n <= 4 (length 4 over n = 3, length 5 over "
         "n = 2 in thorough; one shorter in quick) for affHash and strCat over a two-element non-commuting modifier alphabet; "
         "(2) random histories, constructor new/from_slice/from_iter x n in 1..17 (7/8) or {31,32,33,63,64,65,100,127,128,129} (1/8), "
         "op mix set 19% / modify 31% / ask 37% / lower_bound 6% / lower_bound_rev 6% / debug; (3) a small out-of-domain stream for the "
